@@ -208,6 +208,33 @@ def run(ctx):
                 n8 += 1
                 _option_flows(cl.methods[mn])
     c.expect("R8", "definition-API functions examined", n8, 6, p.cls("MachineBuilder").methods["build"])
+    # ---- R9 `a | b` keeps the written order (the first branch whose guard passes wins, as in the JSON array) -------
+    n9 = 0
+    for cls_name in ("Transition", "TransitionGroup"):
+        try:
+            f = p.cls(cls_name).methods["__or__"]
+        except Exception:
+            continue
+        slf, oth = f.params[0], f.params[1]
+        for r_ in [x for x in own_nodes(f.node) if isinstance(x, ast.Return) and not (isinstance(x.value, ast.Name) and x.value.id == "NotImplemented")]:
+            n9 += 1
+            v_ = r_.value
+            lst = v_.args[0] if isinstance(v_, ast.Call) and norm(v_.func) == "TransitionGroup" and v_.args else None
+            def _flat(e):
+                if isinstance(e, ast.BinOp) and isinstance(e.op, ast.Add):
+                    return _flat(e.left) + _flat(e.right)
+                if isinstance(e, ast.List):
+                    return [norm(z) for z in e.elts]
+                return [norm(e)]
+            seq = _flat(lst) if lst is not None else []
+            first_self = bool(seq) and seq[0].split(".")[0] == slf
+            others = [i for i, z in enumerate(seq) if z.split(".")[0] == oth]
+            selfs = [i for i, z in enumerate(seq) if z.split(".")[0] == slf]
+            ok = first_self and others and max(selfs) < min(others)
+            c.ob("R9", ok, f, f"or-keeps-written-order:{cls_name}:{norm(v_)[:36]}", "the left operand's transitions come first" if ok else
+                 f"'{stmt_text(r_)}' in {f.short} does not build the group as <left operand's transitions> + <right operand's>: the compiled on[event] array has a "
+                 f"different branch order than the expression the user wrote, so another guarded branch wins than in the JSON config it denotes", r_)
+    c.expect("R9", "group-building returns of the | operators", n9, 4, p.cls("Transition").methods["__or__"])
     # ---- R6 builds are independent --------------------------------------------------------------------
     bd = p.cls("MachineBuilder").methods["build"]
     dc = [x for x in own_nodes(bd.node) if isinstance(x, ast.Call) and norm(x.func) == "copy.deepcopy" and "_states" in norm(x.args[0])]
